@@ -8,3 +8,23 @@ fn checksum_mask_roundtrip_complete() {
 	assert!(unmask(mask(c)) == c);
 	assert!(mask(unmask(c)) == c);
 }
+
+/// COMPLETE over all 2^400 contents of a 50-byte footer: Footer::decode never panics (no index out of
+/// bounds, no overflow) - it returns Ok or an error.  (varint loops <= 10 iterations, unwind 12)
+#[kani::proof]
+#[kani::unwind(12)]
+#[kani::stub(alloc::fmt::format, verif_stub_format)]
+fn footer_decode_never_panics_complete() {
+	let buf: [u8; TABLE_FULL_FOOTER_LENGTH] = kani::any();
+	let r = Footer::decode(&buf);
+	if let Ok(f) = r {
+		// an accepted footer has the magic and decodable handles
+		assert!(buf[TABLE_FOOTER_LENGTH..] == TABLE_MAGIC_FOOTER_ENCODED);
+		let _ = (f.meta_index.offset, f.index.offset);
+	}
+}
+
+#[allow(dead_code)]
+fn verif_stub_format(_args: core::fmt::Arguments<'_>) -> String {
+	String::new()
+}
